@@ -139,7 +139,7 @@ Qed.
 
 Lemma step_inv w l : WInv w -> WInv (step w l).
 Proof.
-  intros W. pose proof W as [Ws Wr Wg]. destruct l as [p q n|i|i|i|i k|i k|i|i]; cbn [step].
+  intros W. pose proof W as [Ws Wr Wg]. destruct l as [p q n|i|i|i|i k|i k|i|i|p]; cbn [step].
   - (* LOpen *)
     unfold tbl_acquire. destruct (tbl_get p (tbl w)) as [c|] eqn:E; constructor; cbn.
     + intros j y Hj. destruct (nth_error_app_cases j y (ss w) _ Hj) as [Hj'|Hj']; [eauto|].
@@ -230,6 +230,32 @@ Proof.
                            streams := streams s; conn_open := conn_open s; bm := bm s; qmap := qmap s; inflight := n |})).
       { apply (winv_set w i s); auto. apply (sinv_mod s); cbn; eauto. }
       destruct W' as [A1 A2 A3]. unfold set_sess, refcount in *. cbn in *. rewrite Eq in A1, A2. constructor; unfold refcount; cbn; auto.
+  - (* LOpenFail: acquire, then release exactly that reference *)
+    unfold tbl_acquire, tbl_release. pose proof (Wr p) as Wrp. unfold refcount in Wrp.
+    pose proof (holders_nonneg p (ss w)) as Hn.
+    destruct (tbl_get p (tbl w)) as [c|] eqn:E.
+    + rewrite tbl_get_set_same. destruct (c + 1 - 1 <=? 0) eqn:Ec; constructor; cbn; auto.
+      * intros p0. unfold refcount. cbn. apply Z.leb_le in Ec. destruct (Z.eq_dec p0 p) as [->|Hne].
+        -- rewrite tbl_get_del_same. lia.
+        -- rewrite tbl_get_del_other, tbl_get_set_other by assumption. apply Wr.
+      * intros p0. rewrite count_app. destruct (Z.eq_dec p0 p) as [->|Hne].
+        -- rewrite tbl_get_del_same. specialize (Wg p). rewrite E in Wg. unfold count_occ_z at 3. cbn. rewrite Z.eqb_refl. cbn. lia.
+        -- rewrite tbl_get_del_other, tbl_get_set_other by assumption. specialize (Wg p0). unfold count_occ_z at 3. cbn.
+           destruct (p0 =? p) eqn:E0; [apply Z.eqb_eq in E0; congruence|]. cbn. lia.
+      * intros p0. unfold refcount. cbn. destruct (Z.eq_dec p0 p) as [->|Hne].
+        -- rewrite tbl_get_set_same. lia.
+        -- rewrite !tbl_get_set_other by assumption. apply Wr.
+      * intros p0. destruct (Z.eq_dec p0 p) as [->|Hne].
+        -- rewrite tbl_get_set_same. specialize (Wg p). rewrite E in Wg. assumption.
+        -- rewrite !tbl_get_set_other by assumption. apply Wg.
+    + rewrite tbl_get_set_same. cbn [Z.sub Z.leb]. change (1 - 1 <=? 0) with true. cbv iota. constructor; cbn; auto.
+      * intros p0. unfold refcount. cbn. destruct (Z.eq_dec p0 p) as [->|Hne].
+        -- rewrite tbl_get_del_same. lia.
+        -- rewrite tbl_get_del_other, tbl_get_set_other by assumption. apply Wr.
+      * intros p0. rewrite !count_app. destruct (Z.eq_dec p0 p) as [->|Hne].
+        -- rewrite tbl_get_del_same. specialize (Wg p). rewrite E in Wg. unfold count_occ_z at 2 4. cbn. rewrite Z.eqb_refl. cbn. lia.
+        -- rewrite tbl_get_del_other, tbl_get_set_other by assumption. specialize (Wg p0). unfold count_occ_z at 2 4. cbn.
+           destruct (p0 =? p) eqn:E0; [apply Z.eqb_eq in E0; congruence|]. cbn. lia.
 Qed.
 
 Lemma winv_run sch : forall w, WInv w -> WInv (run sch w).
@@ -356,7 +382,7 @@ Definition quiet_label (l : label) : bool := match l with LEnter _ => false | _ 
 Lemma faults_need_inflight w l : faults (step w l) = faults w \/
   exists i s n, l = LAccess i /\ nth_error (ss w) i = Some s /\ inflight s = S n /\ qmap s = None.
 Proof.
-  destruct l as [p q n|i|i|i|i k|i k|i|i]; cbn [step].
+  destruct l as [p q n|i|i|i|i k|i k|i|i|p]; cbn [step].
   - unfold tbl_acquire. destruct (tbl_get p (tbl w)); left; reflexivity.
   - destruct (nth_error (ss w) i); left; reflexivity.
   - destruct (nth_error (ss w) i) as [s|]; [destruct (conn_open s)|]; left; reflexivity.
@@ -369,12 +395,13 @@ Proof.
   - destruct (nth_error (ss w) i) as [s|]; [|left; reflexivity]. destruct (existsb _ (streams s)); left; reflexivity.
   - destruct (nth_error (ss w) i) as [s|] eqn:E; [|left; reflexivity]. destruct (inflight s) as [|n] eqn:Ei; [left; reflexivity|].
     destruct (qmap s) eqn:Eq; [left; reflexivity|]. right. exists i, s, n. auto.
+  - left. destruct (tbl_acquire p (tbl w) (creates w)) as [t cr]. destruct (tbl_release p t (unmaps w)) as [t' um]. reflexivity.
 Qed.
 
 Definition no_inflight (w : world) : Prop := forall i s, nth_error (ss w) i = Some s -> inflight s = O.
 Lemma no_inflight_step w l : quiet_label l = true -> no_inflight w -> no_inflight (step w l).
 Proof.
-  intros Hq N. destruct l as [p q n|i|i|i|i k|i k|i|i]; try discriminate; cbn [step]; intros j y Hj.
+  intros Hq N. destruct l as [p q n|i|i|i|i k|i k|i|i|p]; try discriminate; cbn [step]; intros j y Hj.
   - unfold tbl_acquire in Hj. destruct (tbl_get p (tbl w)); cbn in Hj;
       (apply nth_error_app_cases in Hj; destruct Hj as [Hj|Hj]; [eauto|subst y; reflexivity]).
   - destruct (nth_error (ss w) i) as [s|] eqn:E; [|eauto]. cbn in Hj. apply nth_error_upd in Hj.
@@ -391,6 +418,7 @@ Proof.
     destruct (st_incb st); [|eauto]. cbn in Hj. apply nth_error_upd in Hj.
     destruct Hj as [[_ ->]|Hj]; [cbn|]; eauto.
   - destruct (nth_error (ss w) i) as [s|] eqn:E; [|eauto]. rewrite (N _ _ E) in Hj. eauto.
+  - destruct (tbl_acquire p (tbl w) (creates w)) as [t cr]. destruct (tbl_release p t (unmaps w)) as [t' um]. cbn in Hj. eauto.
 Qed.
 
 Theorem no_fault_without_inflight sch : forallb quiet_label sch = true -> faults (run sch init) = O.
@@ -402,4 +430,30 @@ Proof.
     - destruct (faults_need_inflight w l) as [E|(i & s & n & _ & E1 & E2 & _)]; [congruence|].
       rewrite (N _ _ E1) in E2. discriminate. }
   apply G; [intros i s H; destruct i; discriminate|reflexivity].
+Qed.
+
+(* ---- a failed establishment next to established siblings ---- *)
+(* the failed newSession took one reference on path p and its error path gives back exactly that one:
+   no session changes, every path keeps its count, and while anybody holds p it stays mapped and in the
+   table (nothing is unmapped) *)
+Theorem failed_open_neutral w p :
+  WInv w ->
+  let w' := step w (LOpenFail p) in
+  ss w' = ss w /\ (forall p', refcount p' w' = refcount p' w) /\
+  (1 <= holders p (ss w) -> unmaps w' = unmaps w /\ tbl_get p (tbl w') = tbl_get p (tbl w)) /\
+  (tbl_get p (tbl w) = None -> tbl_get p (tbl w') = None) /\ WInv w'.
+Proof.
+  intros W w'. pose proof (step_inv w (LOpenFail p) W) as W'. fold w' in W'.
+  assert (Hss : ss w' = ss w).
+  { unfold w'. cbn [step]. destruct (tbl_acquire p (tbl w) (creates w)) as [t cr]. destruct (tbl_release p t (unmaps w)) as [t' um]. reflexivity. }
+  split; [assumption|]. split.
+  { intros p'. rewrite (w_ref _ W'), (w_ref _ W), Hss. reflexivity. }
+  split; [|split; [|assumption]].
+  - intros Hh. pose proof (w_ref _ W p) as Wr. unfold refcount in Wr.
+    unfold w'. cbn [step]. unfold tbl_acquire, tbl_release.
+    destruct (tbl_get p (tbl w)) as [c|] eqn:E; [|lia].
+    rewrite tbl_get_set_same. destruct (c + 1 - 1 <=? 0) eqn:Ec; [apply Z.leb_le in Ec; lia|].
+    cbn. split; [reflexivity|]. rewrite tbl_get_set_same. f_equal. lia.
+  - intros E. unfold w'. cbn [step]. unfold tbl_acquire, tbl_release. rewrite E, tbl_get_set_same.
+    change (1 - 1 <=? 0) with true. cbn. apply tbl_get_del_same.
 Qed.
